@@ -25,9 +25,12 @@ CLAIMED = {
    text="Theorems in coq/Props/C12.v (closed under the global context): for every story the compiler model returns - the "
         "initial passage exists, follows @start > Start > first and can be entered without arguments; every passage is keyed "
         "by its id; every key is a valid name; the validator's walk is sound on arbitrary token trees, hence every choice "
-        "target at any depth is a defined passage or @join and every jump target a defined passage; and the engine model's "
-        "goto chain on such a story never reaches the unknown-passage error site (_partial: stated for goto/jump chains, not "
-        "yet over choose; argument binding is C07). Tie/oracle on every run: an independent structural validator in Python "
+        "target at any depth is a defined passage or @join and every jump target a defined passage; and NO operation of any "
+        "history of the engine model (choose with any index, goto on a defined name, undo, redo, reset, reads, save/load, "
+        "inputs) on such a story ever reaches the unknown-passage error site: step/run_all equal their variants with an "
+        "arbitrary computation at that site (wf_never_unknown_passage, parse_ok_history_never_unknown_passage; the invariant "
+        "is that every offered choice, in the cached output and in both stacks, targets @join or a defined passage). "
+        "Argument binding is C07 and the play-through. Tie/oracle on every run: an independent structural validator in Python "
         "over every accepted generated, mutated and repository story (JSON round trip, token kinds, targets, argument shapes "
         "with Python's ast), exhaustive play to depth 4-5 plus random walks with the real engine looking for unknown-passage "
         "and binding errors, and comparison of the compiled dict with the model's story inside Coq.",
